@@ -62,7 +62,7 @@ class Receive(VC):
             ob.witness("redeemed", amt > 0)
         else:
             # the payout fails: its effects are rolled back by the platform and reply(RECEIVE_ID, Err) runs on the state after receive
-            rep = mk_reply(I, ctx, RECEIVE_ID, False)
+            rep = mk_reply(I, ctx, msgs[0].get("id"), False)
             o2, r2 = run_entry(I, ctx, fn(I, "reply", CRATE), [make_deps(), env, rep], st1)
             ob.require("C12.reply_never_fails_after_receive", o2 == "Ok")
             if o2 != "Ok": return
